@@ -17,8 +17,9 @@ func (x *Exec) step(fr *Frame, ins ssa.Instruction, st *State) {
 		t := in.Type().(*types.Pointer).Elem()
 		r := x.allocRef(st, in.Comment)
 		a := &Addr{root: rCell, ref: r, cellT: t, curT: t}
-		x.store(st, a, x.w.zeroOf(t))
+		// (rows of embedded arrays first: zeroing the struct writes through them)
 		x.allocEmbeddedArrays(st, r, t)
+		x.store(st, a, x.w.zeroOf(t))
 		fr.vals[in] = r
 	case *ssa.BinOp:
 		fr.vals[in] = x.binop(fr, in, st)
